@@ -96,3 +96,70 @@ def gen_weaver(rnd, max_ops=3):
         w = w2
     d = {"__history__": recipe}
     return build(d)
+
+
+# ---------------------------------------------------------------- recreate-from-average strategy objects
+
+RFA_CLASSES = ["PiecewiseConstantRFA", "FunctionRFA", "CubicSplineRFA", "LinearFixedRFA", "LinearAdaptiveRFA", "ExpFixedRFA", "ExpAdaptiveRFA"]
+
+
+def build_supplier(d):
+    kind = d["__supplier__"]
+    if kind == "interp":
+        sup = lambda x, y: (lambda t, x=x, y=y: float(np.interp(t, x, y)))       # noqa: E731
+    elif kind == "nearest":
+        sup = lambda x, y: (lambda t, x=x, y=y: float(y[int(np.argmin(np.abs(np.asarray(x) - t)))]))   # noqa: E731
+    else:
+        sup = lambda x, y: (lambda t: 2.0 * t + 1.0)                              # noqa: E731
+    sup.__verif_repr__ = lambda: d
+    return sup
+
+
+def build_rfa(d):
+    import traffic_weaver.rfa as rfa
+    r = d["__rfa__"]
+    kw = dict(r.get("kw", {}))
+    if isinstance(kw.get("sampling_function_supplier"), dict):
+        kw["sampling_function_supplier"] = build_supplier(kw["sampling_function_supplier"])
+    x = np.array(r["x"], dtype=r.get("xdtype", "float64")) if r.get("xkind", "nd") == "nd" else list(r["x"])
+    y = np.array(r["y"], dtype="float64") if r.get("ykind", "nd") == "nd" else list(r["y"])
+    o = getattr(rfa, r["cls"])(x, y, r["n"], **kw)
+    o.__verif_repr__ = lambda: d
+    return o
+
+
+def gen_rfa_recipe(rnd, cls):
+    """series with ties between neighbouring averages (the special-case branches of the adaptive strategies), uniform or not"""
+    m = rnd.randint(2, 9)
+    cur = float(rnd.randint(-4, 4)) / 2
+    xs = []
+    uniform = rnd.random() < 0.4
+    for _ in range(m):
+        xs.append(cur)
+        cur += 1.0 if uniform else rnd.choice([0.5, 1.0, 1.0, 1.5, 2.0, 0.25])
+    ys = []
+    for i in range(m):
+        if i and rnd.random() < 0.3:
+            ys.append(ys[-1])
+        else:
+            ys.append(float(rnd.randint(-6, 6)) / 2)
+    n = rnd.choice([2, 2, 3, 4, 5, 6, 8, 9])
+    kw = {}
+    if cls in ("LinearFixedRFA", "LinearAdaptiveRFA", "ExpFixedRFA", "ExpAdaptiveRFA"):
+        if rnd.random() < 0.5:
+            kw["alpha"] = rnd.choice([1.0, 0.5, 0.75, 0.3, 0.1])
+        else:
+            kw["a"] = rnd.randint(0, n)
+    if cls in ("ExpFixedRFA", "ExpAdaptiveRFA"):
+        kw["beta"] = rnd.choice([0.5, 0.0, 1.0, 0.25, 0.7])
+        kw["exp"] = rnd.choice([2.0, 1.0, 0.5, 3.0, 1.5])
+    if cls in ("LinearAdaptiveRFA", "ExpAdaptiveRFA"):
+        kw["adaptive_smooth"] = rnd.choice([1.0, 1.0, 0.5, 2.0, 3.0])
+    if cls == "FunctionRFA":
+        kw["sampling_function_supplier"] = {"__supplier__": rnd.choice(["interp", "nearest", "affine"])}
+    return {"__rfa__": dict(cls=cls, x=xs, y=ys, n=n, kw=kw, xkind=rnd.choice(["nd", "nd", "list"]), ykind=rnd.choice(["nd", "nd", "list"]),
+                            xdtype="int64" if uniform and all(float(v).is_integer() for v in xs) and rnd.random() < 0.3 else "float64")}
+
+
+def gen_rfa(rnd, cls):
+    return build_rfa(gen_rfa_recipe(rnd, cls))
